@@ -333,20 +333,32 @@ def r3(ctx, chk):
     chk.ob(rule, "timestamp: the instant is expressed in settings.TIMEZONE (or the local zone) by fromtimestamp(seconds, zone)", ok,
            "zone argument defs: %s" % zdefs, key={"function": f.key, "construct": "fromtimestamp zone"}, file=f.file,
            function=f.qual, line=f.node.lineno)
-    ok = "apply_timezone_from_settings(date_obj, settings)" in t
+    import re as _re
+    ok = _re.search(r"(\w+) = apply_timezone_from_settings\(\1, settings\)", " ".join(t.split())) is not None
     chk.ob(rule, "timestamp: result goes through apply_timezone_from_settings", ok, "",
            key={"function": f.key, "construct": "helper call"}, file=f.file, function=f.qual, line=f.node.lineno)
     pf = ctx.ix.func("dateparser.date:parse_with_formats")
-    ok = "apply_timezone_from_settings(date_obj, settings)" in ast.unparse(pf.node)
+    ok = _re.search(r"(\w+) = apply_timezone_from_settings\(\1, settings\)", " ".join(ast.unparse(pf.node).split())) is not None
     chk.ob(rule, "custom formats: result goes through apply_timezone_from_settings", ok, "",
            key={"function": pf.key, "construct": "helper call"}, file=pf.file, function=pf.qual, line=pf.node.lineno)
     # relative pipeline: implicit now is taken in TIMEZONE
     fr = ctx.ix.func("dateparser.freshness_date_parser:FreshnessDateDataParser.parse")
-    nows = [n for n in iter_own_nodes(fr.node) if isinstance(n, ast.Assign) and ast.unparse(n.targets[0]) == "now"]
+    # the local that is handed to _parse_date as the base
+    pd_calls = [n for n in iter_own_nodes(fr.node) if isinstance(n, ast.Call) and ast.unparse(n.func) == "self._parse_date" and len(n.args) >= 2]
+    nowv = ast.unparse(pd_calls[0].args[1]) if pd_calls else "now"
+    nows = [n for n in iter_own_nodes(fr.node) if isinstance(n, ast.Assign) and ast.unparse(n.targets[0]) == nowv]
     srcs = {" ".join(ast.unparse(n.value).split()) for n in nows}
-    need = {"apply_timezone(utc_dt, settings.TIMEZONE)", "settings.RELATIVE_BASE", "localize_timezone(now, settings.TIMEZONE)"}
+    need = {r"apply_timezone\(\w+, settings\.TIMEZONE\)": "current instant expressed in TIMEZONE",
+            r"settings\.RELATIVE_BASE": "RELATIVE_BASE",
+            r"localize_timezone\(%s, settings\.TIMEZONE\)" % nowv: "RELATIVE_BASE interpreted in TIMEZONE"}
+    missing = [w for pat, w in need.items() if not any(_re.fullmatch(pat, s_) for s_ in srcs)]
+    utc_ok = any(_re.fullmatch(r"apply_timezone\((\w+), settings\.TIMEZONE\)", s_) and any(
+        isinstance(n, ast.Assign) and ast.unparse(n.targets[0]) == _re.fullmatch(r"apply_timezone\((\w+), settings\.TIMEZONE\)", s_).group(1)
+        and "datetime.now(" in ast.unparse(n.value) and "utc" in ast.unparse(n.value).lower() for n in iter_own_nodes(fr.node)) for s_ in srcs)
+    if not utc_ok:
+        missing.append("the implicit now is datetime.now(UTC) converted to TIMEZONE")
     chk.ob(rule, "relative: now is RELATIVE_BASE interpreted in TIMEZONE, or the current instant expressed in TIMEZONE",
-           need <= srcs, "missing %s" % sorted(need - srcs), key={"function": fr.key, "construct": "now sources"},
+           not missing, "missing %s" % missing, key={"function": fr.key, "construct": "now sources"},
            file=fr.file, function=fr.qual, line=fr.node.lineno)
 
 
